@@ -6,13 +6,20 @@ From Coq Require Import Lia Bool.
 From PegtlV Require Import Base Decode Grammar Engine EngineFacts AtomFacts Equiv EquivFacts EquivEval EquivHeads EquivTable EquivBisim EquivBisim2.
 From PegtlV.gen Require Import AliasC09_gen AliasC09Claims_gen.
 
-Definition c09_decided2 : list (rid * rid) :=
-  filter (fun p => table_equiv2 aliasC09_table 12 (fst p) (snd p)) c09_pairs.
+Definition decided2 (G0 : grammar) (pairs : list (rid * rid)) : list (rid * rid) :=
+  filter (fun p => table_equiv2 G0 12 (fst p) (snd p)) pairs.
+
+Lemma decided2_sound G0 pairs :
+  forall G C, noact_cfg C -> plain_table G -> table_wf G -> extends G0 G ->
+  forall p, In p (decided2 G0 pairs) -> obs_equiv G C (fst p) (snd p).
+Proof.
+  intros G C HC HG HW HE p Hp. unfold decided2 in Hp. apply filter_In in Hp. destruct Hp as [_ H].
+  exact (table_equiv2_sound G0 G C HC HG HW HE 12 (fst p) (snd p) H).
+Qed.
+
+Definition c09_decided2 : list (rid * rid) := decided2 aliasC09_table c09_pairs.
 
 Theorem alias_schemas_equiv2 :
   forall G C, noact_cfg C -> plain_table G -> table_wf G -> extends aliasC09_table G ->
   forall p, In p c09_decided2 -> obs_equiv G C (fst p) (snd p).
-Proof.
-  intros G C HC HG HW HE p Hp. unfold c09_decided2 in Hp. apply filter_In in Hp. destruct Hp as [_ H].
-  exact (table_equiv2_sound aliasC09_table G C HC HG HW HE 12 (fst p) (snd p) H).
-Qed.
+Proof. exact (decided2_sound aliasC09_table c09_pairs). Qed.
